@@ -121,24 +121,17 @@ def run(ctx, chk):
             if seq and seq[-1] != 'call:handle_interrupt':
                 chk.fail('C08.1', key + ':order', 'handle_interrupt is not the last effect of the step: %s' % seq, file, None)
     # ---- rule 3
+    # PC is written by the interpreter's instruction functions, by the register-file constructors and - outside
+    # instruction execution - by handle_interrupt only (a dispatch from anywhere else would bypass the IME test of C07.2)
     ipst = prog.field_stores('cpu::Registers', 'ip')
-    vec_fns = set()
-    for fname, bb, line, rv, kind in ipst:
-        fn = prog.fns[fname]
-        # a store of a value derived from constants 0x40..0x60 through a tuple: detect by constant aggregates in the fn
-        consts = set()
-        for b in fn['blocks']:
-            for s in b['stmts']:
-                if s['k'] == 'assign' and s['rv']['k'] == 'aggregate':
-                    for o in s['rv']['ops']:
-                        if o['k'] == 'const' and o['val'] in (0x40, 0x48, 0x50, 0x58, 0x60) and o['ty'] in ('u32', 'u16'):
-                            consts.add(o['val'])
-        if len(consts) >= 3:
-            vec_fns.add(fname)
-    if vec_fns == {CORE + 'handle_interrupt'}:
-        chk.ok('C08.3', 'vector-writers', sample={'functions': sorted(vec_fns)})
+    outside = sorted(set(f for f, bb, line, rv, kind in ipst
+                         if not f.startswith('interpreter::') and not f.startswith('cpu::Registers::')))
+    vec_fns = outside
+    if outside == [CORE + 'handle_interrupt']:
+        chk.ok('C08.3', 'vector-writers', sample={'writers of PC outside instruction execution': outside})
     else:
-        chk.fail('C08.3', 'vector-writers', 'functions loading interrupt vectors into PC: %s' % sorted(vec_fns), file, None)
+        chk.fail('C08.3', 'vector-writers', 'PC is written outside instruction execution by %s (expected handle_interrupt only)'
+                 % outside, file, None)
     clr = sorted(set(c[0] for c in prog.callers('devices::interrupts::InterruptFlag::clear')))
     if clr == [CORE + 'handle_interrupt']:
         chk.ok('C08.3', 'if-clear', sample={'callers of InterruptFlag::clear': clr})
